@@ -179,6 +179,11 @@ pub struct Model {
     pub idx: Option<usize>,
     /// candidate -> (addresses the debugger installed, breakpoint numbers)
     pub enabled: BTreeMap<usize, (Vec<u64>, Vec<u64>)>,
+    /// candidate -> for every address: is it stored in global form?  While the program is not
+    /// running the debugger keys its breakpoints by (form, address): a relocated and a global
+    /// entry for one address coexist; while it runs there is one breakpoint per address.
+    pub forms: BTreeMap<usize, Vec<bool>>,
+    pub forms_running: bool,
     pub lost: bool,
     /// signals of the reference trace (by delivery index) already accounted for
     pub sig_seen_upto: usize,
@@ -189,6 +194,18 @@ pub struct Model {
     /// an externally sent SIGINT is pending in the stopped debuggee
     pub pending_sigint: bool,
     pub sigints_sent: u32,
+}
+
+/// Entering / leaving the running state rewrites the form of every stored breakpoint address:
+/// enabling makes them relocated, the exit turns them into global ones.
+pub fn normalize_forms(m: &mut Model) {
+    let running = m.started && !m.exited;
+    if running != m.forms_running {
+        for (c, (a, _)) in m.enabled.iter() {
+            m.forms.insert(*c, vec![!running; a.len()]);
+        }
+        m.forms_running = running;
+    }
 }
 
 impl Model {
@@ -324,15 +341,30 @@ fn apply_inner(p: &Prog, cands: &[Cand], m: &mut Model, a: &Action, k_idx: usize
                         addrs.push(addr);
                         nums.push(v["num"].as_u64().unwrap_or(0));
                     }
-                    // one breakpoint per address: a new one replaces what another designator put there
-                    for (other, (oa, on)) in m.enabled.iter_mut() {
-                        if other != c {
-                            let keep: Vec<usize> = (0..oa.len()).filter(|i| !addrs.contains(&oa[*i])).collect();
-                            *on = keep.iter().filter_map(|i| on.get(*i).copied()).collect();
-                            *oa = keep.iter().map(|i| oa[*i]).collect();
+                    normalize_forms(m);
+                    let running = m.started && !m.exited;
+                    let new_forms: Vec<bool> = views.iter().map(|v| v["global"].as_bool().unwrap_or(false)).collect();
+                    // a new breakpoint replaces what sits under the same key: the address while the
+                    // program runs, (form, address) while it does not
+                    let cands_now: Vec<usize> = m.enabled.keys().copied().collect();
+                    for other in cands_now {
+                        if other == *c {
+                            continue;
+                        }
+                        let (oa, on) = m.enabled.get(&other).cloned().unwrap_or_default();
+                        let of = m.forms.get(&other).cloned().unwrap_or_else(|| vec![false; oa.len()]);
+                        let keep: Vec<usize> = (0..oa.len()).filter(|i| !addrs.iter().zip(new_forms.iter()).any(|(a, g)| *a == oa[*i] && (running || *g == *of.get(*i).unwrap_or(&false)))).collect();
+                        if keep.len() != oa.len() {
+                            if keep.is_empty() {
+                                m.enabled.remove(&other);
+                                m.forms.remove(&other);
+                            } else {
+                                m.enabled.insert(other, (keep.iter().map(|i| oa[*i]).collect(), keep.iter().filter_map(|i| on.get(*i).copied()).collect()));
+                                m.forms.insert(other, keep.iter().map(|i| *of.get(*i).unwrap_or(&false)).collect());
+                            }
                         }
                     }
-                    m.enabled.retain(|other, (oa, _)| other == c || !oa.is_empty());
+                    m.forms.insert(*c, new_forms);
                     m.enabled.insert(*c, (addrs, nums));
                 } else if or.projection {
                     f.push(Finding { sig: format!("{prop}:add-failed:{}", res["err"].as_str().unwrap_or("?")), detail: format!("[{}] {} failed: {}", p.name(), hist(k), res["msg"]) });
@@ -350,13 +382,23 @@ fn apply_inner(p: &Prog, cands: &[Cand], m: &mut Model, a: &Action, k_idx: usize
                             f.push(Finding { sig: format!("{prop}:remove:existing-breakpoint-not-removed:{when}"), detail: format!("[{}] {}: the breakpoint of this designator is listed, the debugger removed nothing ({res})", p.name(), hist(k)) });
                         }
                     } else {
-                        m.enabled.remove(c);
-                        for (_, (oa, on)) in m.enabled.iter_mut() {
-                            let keep: Vec<usize> = (0..oa.len()).filter(|i| !removed.contains(&oa[*i])).collect();
-                            *on = keep.iter().filter_map(|i| on.get(*i).copied()).collect();
-                            *oa = keep.iter().map(|i| oa[*i]).collect();
+                        normalize_forms(m);
+                        let running = m.started && !m.exited;
+                        let removed_keys: Vec<(u64, bool)> = views.iter().map(|v| (v["addr"].as_u64().unwrap_or(0) + if v["global"].as_bool().unwrap_or(false) { p.base } else { 0 }, v["global"].as_bool().unwrap_or(false))).collect();
+                        let cands_now: Vec<usize> = m.enabled.keys().copied().collect();
+                        for other in cands_now {
+                            let (oa, on) = m.enabled.get(&other).cloned().unwrap_or_default();
+                            let of = m.forms.get(&other).cloned().unwrap_or_else(|| vec![false; oa.len()]);
+                            let keep: Vec<usize> = (0..oa.len()).filter(|i| !removed_keys.iter().any(|(a, g)| *a == oa[*i] && (running || *g == *of.get(*i).unwrap_or(&false)))).collect();
+                            if keep.is_empty() {
+                                m.enabled.remove(&other);
+                                m.forms.remove(&other);
+                            } else if keep.len() != oa.len() {
+                                m.enabled.insert(other, (keep.iter().map(|i| oa[*i]).collect(), keep.iter().filter_map(|i| on.get(*i).copied()).collect()));
+                                m.forms.insert(other, keep.iter().map(|i| *of.get(*i).unwrap_or(&false)).collect());
+                            }
                         }
-                        m.enabled.retain(|_, (oa, _)| !oa.is_empty());
+                        let _ = removed;
                     }
                 } else if or.projection {
                     f.push(Finding { sig: format!("{prop}:remove-failed"), detail: format!("[{}] {}: {}", p.name(), hist(k), res["msg"]) });
